@@ -59,7 +59,18 @@ fn oracle_small(case: &[u8], obs: &mut Obs) -> Result<(), String> {
     if case.is_empty() {
         return Ok(());
     }
-    check(&case[1..], case[0] as usize, obs)
+    // the table at every address residue modulo 8 (word-at-a-time scanners treat an unaligned front separately)
+    let mut buf = vec![0xAAu8; 8];
+    buf.extend_from_slice(&case[1..]);
+    let base = buf.as_ptr() as usize % 8;
+    for lead in 0..8 {
+        let start = (8 + lead - base) % 8;
+        buf.truncate(0);
+        buf.resize(start, 0xAA);
+        buf.extend_from_slice(&case[1..]);
+        check(&buf[start..], case[0] as usize, obs)?;
+    }
+    Ok(())
 }
 
 fn enum_small(shard: usize, nshards: usize, _t: Tier, emit: &mut dyn FnMut(&[u8]) -> bool) {
@@ -97,7 +108,7 @@ fn oracle_random(case: &[u8], obs: &mut Obs) -> Result<(), String> {
         _ => c.below(4097) as usize,
     };
     let nul_density = *c.pick(&[0u32, 2, 8, 32, 128]);
-    let style = c.below(4);
+    let style = c.below(5);
     let seed = c.u64();
     let mut t = vec![0u8; len];
     verif_model::choice::fill(seed, &mut t);
@@ -113,6 +124,28 @@ fn oracle_random(case: &[u8], obs: &mut Obs) -> Result<(), String> {
         } else if style == 3 {
             *b = [1u8, 1, 0x7f, 0x80, 0xff, b'a', 2, 0xfe][(*b % 8) as usize];
         }
+    }
+    if style == 4 {
+        // valid UTF-8 text rich in 2-, 3- and 4-byte characters at every position modulo any block size, few NULs
+        // (long valid names whose characters straddle 8/16/32/64-byte boundaries)
+        const POOL: [&str; 8] = ["a", "\u{e9}", "\u{20ac}", "\u{1f600}", "b", "\u{df}", "\u{4e2d}", "z"];
+        let mut s2 = seed ^ 0xabc;
+        let mut v: Vec<u8> = Vec::with_capacity(len + 4);
+        while v.len() < len {
+            let r = verif_model::choice::splitmix(&mut s2);
+            if ((r >> 40) & 0x3ff) < (nul_density as u64) / 8 {
+                v.push(0);
+                continue;
+            }
+            let ch = POOL[(r % 8) as usize].as_bytes();
+            if v.len() + ch.len() > len {
+                v.push(b'a');
+            } else {
+                v.extend_from_slice(ch);
+            }
+        }
+        t = v;
+        obs.label("multibyte_text_table");
     }
     if huge {
         // no NULs except a handful at chosen places: runs of 4096, 65535, 65536 ... bytes before a terminator
@@ -155,14 +188,22 @@ fn oracle_random(case: &[u8], obs: &mut Obs) -> Result<(), String> {
         7 => ((1 + c.below(5)) << 32) as usize | c.below(len as u64 + 1) as usize,
         _ => c.below(len as u64 + 2) as usize,
     };
-    check(&t, off, obs)
+    // at an arbitrary address residue modulo 16
+    let lead = c.below(16) as usize;
+    if lead == 0 {
+        return check(&t, off, obs);
+    }
+    let mut buf = vec![0x01u8; lead];
+    buf.extend_from_slice(&t);
+    obs.label("unaligned_table");
+    check(&buf[lead..], off, obs)
 }
 
 pub fn property() -> Property {
     Property {
         id: "C15",
         level: "exploration",
-        rule: "cases are (table bytes, offset); oracle = NUL-scan reference: inside the table with a NUL after it -> Ok(exact sub-slice starting at table+offset), otherwise Err of kind BadOffset or StringTableMissingNul; get = from_utf8(get_raw) or Err. small: exhaustive over every table of length 0..7 over the alphabet {NUL,'a',0xC3,0xA9} and every offset 0..len+2. random: proptest choice sequences, tables up to 4 KiB with varying NUL density and alphabets rich in 0x01/0x7f/0x80/0xff (4% of the tables: 4..200 KiB with a handful of NULs, i.e. NUL-free runs of 4 096, 65 535, 65 536+ bytes), offsets incl. len-1, len, len+1, k*2^32+i, boundary values and usize::MAX. Non-trivial: lookup at a non-zero offset that succeeds, or any failing lookup; distinct by case hash.",
+        rule: "cases are (table bytes, offset); oracle = NUL-scan reference: inside the table with a NUL after it -> Ok(exact sub-slice starting at table+offset), otherwise Err of kind BadOffset or StringTableMissingNul; get = from_utf8(get_raw) or Err. small: exhaustive over every table of length 0..7 over the alphabet {NUL,'a',0xC3,0xA9} and every offset 0..len+2. random: proptest choice sequences, tables up to 4 KiB with varying NUL density and alphabets rich in 0x01/0x7f/0x80/0xff or valid UTF-8 text of 1..4-byte characters with few NULs (4% of the tables: 4..200 KiB with a handful of NULs, i.e. NUL-free runs of 4 096, 65 535, 65 536+ bytes), offsets incl. len-1, len, len+1, k*2^32+i, boundary values and usize::MAX; the table starts at every address residue modulo 8 (small) / a chosen residue modulo 16 (random). Non-trivial: lookup at a non-zero offset that succeeds, or any failing lookup; distinct by case hash.",
         assumptions: &["error kinds are only required to be one of the two the statement names, not a particular one per situation"],
         subs: vec![Sub::enumerated("small", oracle_small, enum_small, true), Sub::new("random", oracle_random, 64, 3_000_000, 40_000_000)],
         extras: vec![crate::fuzz::c15_choice],
